@@ -30,7 +30,7 @@ RULE = ("stream ipgrep: texts of 0..14 words drawn from valid / boundary (networ
         "network spellings, wider and narrower prefixes) / invalid address-like words, joined by blanks, tabs, newlines, commas or semicolons, x subnet lists "
         "(IPv4, IPv6, mixed, overlapping, duplicate, host, /0, unparsable) or -4/-6 x {--unique, --line, --show-cidr, --show-networks, --exclude-hosts} x "
         "word delimiter; `ccp ipgrep` is run in-process on a temporary file and CliApplication.stdout + the process stdout are compared with the model, "
-        "which receives per word what IPv4Obj/IPv6Obj parse (oracle) and the three renderings of that value computed with the standard library. "
+        "which receives per word the standard library's reading of it as an address (oracle; the reading C11 shows IPv4Obj/IPv6Obj to have) and the three renderings of that value. "
         "stream macgrep: the same for MAC/EUI-64 words in four spellings and invalid look-alikes x regex lists x {--unique, --line} x delimiter; "
         "the oracle is macaddress.parse + re.search on the four spellings. non-trivial = at least one word printed and one valid word suppressed "
         "(outside every subnet / excluded / duplicate), distinct by options and counts. aux: parent/child/branch/diff subcommands vs the API (test only). macgrep regexes include, per spelling, one that only that spelling satisfies, in lower and in upper case.")
@@ -38,7 +38,7 @@ EXHAUSTIVE = {"quick": False, "thorough": False}
 TRUSTED = [
     "Coq 8.16.1 kernel incl. vm_compute",
     "hand-written model coq/Model/Grep.v of the grep loops; tied to the source by the correspondence streams and AST fingerprints only",
-    "oracles carried in each case: IPv4Obj/IPv6Obj parsing of a word (value = as_decimal, prefixlen; correctness of that parse is C11), the standard "
+    "oracles carried in each case: the standard library's reading of a word as an address (ipaddress.IPv4Interface / IPv6Interface; that IPv4Obj/IPv6Obj read it the same way is C11), the standard "
     "library `ipaddress` for the three renderings, the third-party `macaddress` parser and Python's `re` for MAC words; re.split / str.splitlines for cutting the text",
     "membership is Model/IPRef.contains_ref, proved equal to the source's __contains__ in C12",
     "correspondence driver harness/props/c18.py and the Gallina literal emitter",
@@ -86,7 +86,10 @@ WORDS4 = ["10.1.1.1", "10.1.1.0/24", "10.1.1.255", "10.1.2.0", "10.0.0.0", "10.2
 WORDS6 = ["2001:db8::1", "2001:db8::", "2001:db8::ffff:ffff:ffff:ffff", "2001:db8:0:1::", "2001:db8::1/64", "::1", "fe80::1/10", "2001:db8::/64",
           "2001:DB8::1", "2001:db8:0:0:0:0:0:1", "2001:db7:ffff:ffff:ffff:ffff:ffff:ffff", "::", "::/0", "fec0::1", "febf:ffff::1", "::ffff:10.1.1.1", "2001:db8::/32", "2001:db8::1/128"]
 BADW = ["foo", "10.1.1.256", "1.2.3", "10.1.1.1/33", "2001:db8::g", "2001:db8::1/129", "10.1.1", "10.1.1.1.1", "1:2:3:4:5:6:7:8:9", "interface", "ip", "address",
-        "10.1.1.1x", "x10.1.1.1", "010.1.1.1", "10.1.1.1/", "/24", ":", "::1x", "1.2.3.4%eth0", "-", ""]
+        "10.1.1.1x", "x10.1.1.1", "010.1.1.1", "10.1.1.1/", "/24", ":", "::1x", "1.2.3.4%eth0", "-", "",
+        # a valid word followed by junk (an unanchored regex alternative would cut the junk off and print a clean address)
+        "10.1.1.9/24,", "10.1.1.10/24abc", "10.1.1.11/24/7", "10.1.1.14/24.", "10.1.1.12/2x", "10.1.1.13/255.255.255.0x", "10.1.1.15/24;",
+        "2001:db8::5/64x", "2001:db8::6/64/1", "2001:db8::7,", "10.1.1.16,10.1.1.17"]
 DELIMS = [None, None, None, ",", r",|\s+", ";", r"\s+|;"]
 
 
@@ -121,7 +124,7 @@ def gen_ip(rng, tier, escalate):
         elif mode < 0.985:
             c["subnets"], c["v4"] = rng.choice(SUBNETS), True
         # else: neither -s nor -4/-6 -> error
-        pool = WORDS4 + WORDS6 + BADW[:12] + _boundary_words(rng, c["subnets"] or ["10.1.1.0/24", "2001:db8::/64"])
+        pool = WORDS4 + WORDS6 + BADW[:12] + BADW[22:] + _boundary_words(rng, c["subnets"] or ["10.1.1.0/24", "2001:db8::/64"])
         ws = [rng.choice(pool) if rng.random() < 0.9 else rng.choice(BADW) for _ in range(rng.randint(0, 14))]
         # repeat some words so that --unique has something to do
         if ws and rng.random() < 0.6:
@@ -160,17 +163,17 @@ def _cmd_ip(c, path):
 
 
 def _oracle_word(w):
-    """what IPv4Obj(w) / IPv6Obj(w) return, with the renderings of that value by the standard library"""
-    from ciscoconfparse2.ccp_util import IPv4Obj, IPv6Obj
+    """what the word denotes as an IPv4 / IPv6 address -- the standard library's reading of it (the reading C11 shows
+    IPv4Obj / IPv6Obj to have; a word is not an address when ipaddress rejects it) -- with the renderings of that value"""
+    from props import c11
     out = []
-    for cls, mk in ((IPv4Obj, ipaddress.IPv4Interface), (IPv6Obj, ipaddress.IPv6Interface)):
-        try:
-            o = cls(w)
-            a, p = int(o.as_decimal), int(o.prefixlen)
-            i = mk((a, p))
-            out.append([a, p, str(i.ip), i.with_prefixlen, str(i.network)])
-        except BaseException:
+    for std, mk in ((c11._std4, ipaddress.IPv4Interface), (c11._std6, ipaddress.IPv6Interface)):
+        r = std(w) if w.strip() else None
+        if r is None:
             out.append(None)
+        else:
+            i = mk((r[0], r[1]))
+            out.append([r[0], r[1], str(i.ip), i.with_prefixlen, str(i.network)])
     return out
 
 
@@ -385,7 +388,7 @@ def d_mac(c, o):
 
 STREAMS = [
     Stream("ipgrep", gen_ip, run_ip, lit_ip, PRE, "case_ip", "agree_ip", show="model_ip", nontrivial=nt_ip, describe=d_ip, shard=200,
-           rule="ccp ipgrep on generated texts vs model (oracle: IPv4Obj/IPv6Obj parse, ipaddress renderings)"),
+           rule="ccp ipgrep on generated texts vs model (oracle: ipaddress reading and renderings of each word)"),
     Stream("macgrep", gen_mac, run_mac, lit_mac, PRE, "case_mac", "agree_mac", show="model_mac", nontrivial=nt_mac, describe=d_mac, shard=200,
            rule="ccp macgrep on generated texts vs model (oracle: macaddress.parse, re.search on four spellings)"),
 ]
